@@ -83,7 +83,14 @@ CONCUR_MON = {
     'C07': ('C07_Serializable', 'FinalInvariants', 'Escaped'),
 }
 
+FAULT = {
+    'C17': dict(mode='fault', quick=dict(kinds=['deadlock', 'deadlock_rb', 'duplicate', 'generic', 'conn']),
+                thorough=dict(kinds=['deadlock', 'deadlock_rb', 'duplicate', 'generic', 'conn'])),
+    'C18': dict(mode='crash', quick=dict(kinds=['crash']), thorough=dict(kinds=['crash'])),
+}
+
 LEVEL = {p: 'model_checking' for p in list(SEQ) + list(CONCUR)}
+LEVEL.update({p: 'fault_enumeration' for p in FAULT})
 
 RULES = {
     'C01': 'distinct (allocation-writing request, outcome, inventories, allocations before) whose outcome (204/409) is decided by the inventory / unit / capacity checks',
@@ -222,6 +229,16 @@ def finish(prop, tier, seed, cov, violations, known, t0, assumptions):
         paths.append(p)
         print('VIOLATION property=%s replay=%s' % (prop, p))
         print('  ' + why)
+    if len(violations) > 5:
+        import re as _re
+        groups = {}
+        for bad, why, sig in violations:
+            g = _re.sub(r'statement \d+', 'statement N', why)
+            g = _re.sub(r'schedule [A-C]+', 'schedule S', g)
+            groups[g] = groups.get(g, 0) + 1
+        print('  all %d violations by kind:' % len(violations))
+        for g, n in sorted(groups.items(), key=lambda x: -x[1])[:40]:
+            print('   %4d  %s' % (n, g[:300]))
     cov['known_findings_seen'] = sorted(seen)
     ev = {'property_id': prop, 'tier': tier, 'seed': seed,
           'level': LEVEL[prop], 'coverage': cov, 'assumptions': assumptions,
@@ -379,7 +396,85 @@ def run_concur(prop, tier, seed, model=True):
         'two oracles: API!Apply alone (TraceSerial.tla: serial order of the effective successful requests, commit-time generation guards) and the model of the transaction structure (Tx.tla: every observed outcome must be an outcome of some interleaving of the model)'])
 
 
+def run_fault(prop, tier, seed, model=True):
+    import multiprocessing as mp
+    from pv import faults, concur
+    t0 = time.time()
+    cfg = FAULT[prop]
+    ctx = mp.get_context('spawn')
+    with ctx.Pool(1) as pool:
+        nitems, single = pool.apply(faults.corpus_for_model)
+    nw = 12 if tier == 'quick' else 14
+    jobs = []
+    for w in range(nw):
+        idx = list(range(w, nitems, nw))
+        if idx:
+            jobs.append({'mode': cfg['mode'], 'indices': idx, 'kinds': cfg[tier]['kinds']})
+    try:
+        with ctx.Pool(len(jobs)) as pool:
+            results = pool.map(faults.worker, jobs, chunksize=1)
+    except tlc.TLCError as ex:
+        raise Machinery(str(ex))
+    n = sum(r['n'] for r in results)
+    fired = sum(r['fired'] for r in results)
+    if n == 0 or fired == 0:
+        raise Machinery('no fault was injected')
+    violations, known = [], []
+    outcomes = {}
+    clean = {}
+    for r in results:
+        clean.update(r['clean'])
+        for k, v in r['outcomes'].items():
+            outcomes[k] = outcomes.get(k, 0) + v
+        for bad in r['bad']:
+            mons = [m for m in bad['monitors'] if m.startswith(prop) or m.startswith('MACHINERY')]
+            if not mons:
+                continue
+            if any(m.startswith('MACHINERY') for m in mons):
+                raise Machinery('a statement other than ROLLBACK was issued after the crash point: %s' % bad['label'])
+            sig = {'engine': 'fault', 'op': bad['req']['op'], 'kind': bad['fault']['kind'],
+                   'monitors': ','.join(mons), 'status': bad['status'],
+                   'differs': ','.join(m[8:] for m in bad['monitors'] if m.startswith('differs:'))}
+            f = findings.lookup(prop, sig)
+            why = '%s: %s with %s at statement %d (%s) answered %s' % (
+                ','.join(mons), bad['label'], bad['fault']['kind'], bad['fault']['k'],
+                bad['fault']['at'], bad['status'])
+            if f:
+                known.append((f, why))
+            else:
+                violations.append((bad, why, sig))
+    models = []
+    if model:
+        races = [{'id': i + 1, 'db0': db0, 'reqs': [req], 'known': '', 'observed': []}
+                 for i, (label, db0, req) in enumerate(single)]
+        ok, st, report, tail = concur.run_tx_model(races, cfg='TxSingle.cfg')
+        if not ok:
+            raise Machinery('TLC found CrashConsistent / ExactlyOnceOrClean / Refines violated on spec/Tx.tla itself:\n' + tail)
+        st['model'] = 'TxSingle.cfg (Tx.tla with Crash and Fault actions, %d single-request runs)' % len(races)
+        models.append(st)
+    cov = {
+        'evaluations': n,
+        'faults_fired': fired,
+        'distinct_nontrivial': len(outcomes),
+        'rule': ('one case = one request of the write corpus executed with one fault injected before its k-th SQL statement; '
+                 'every k of every corpus request is enumerated for every fault kind; distinct non-trivial = distinct (request, fault kind, statement class hit, status) outcomes'),
+        'corpus_requests': len(clean),
+        'statements_per_request': {k: v['statements'] for k, v in sorted(clean.items())},
+        'samples': results[0]['sample'] + [{'outcome': k} for k in sorted(outcomes)[:3]],
+        'exhaustive': True,
+        'models': models,
+        'states': sum(m['states'] for m in models),
+        'transitions': sum(m['transitions'] for m in models),
+    }
+    return finish(prop, tier, seed, cov, violations, known, t0, [
+        'faults are injected from the SQLAlchemy before_cursor_execute event on SQLite; the MySQL behaviour "deadlock victim: the database rolled the transaction back" is emulated by ROLLBACK; BEGIN on the raw cursor',
+        'a crash is a BaseException raised at the crash point; the harness checks that the request issues no further statement',
+        'the enumeration is exhaustive over the statement indices of the corpus requests (single faults), not over all requests or fault sequences'])
+
+
 def run_check(prop, tier, seed, model=True):
+    if prop in FAULT:
+        return run_fault(prop, tier, seed, model=model)
     if prop in SEQ:
         return run_seq(prop, tier, seed, model=model)
     if prop in CONCUR:
